@@ -327,7 +327,7 @@ func c14Run(c *Ctx) {
 func init() {
 	register(&CheckDef{
 		ID:   "C14",
-		Rule: "expressions: 58 forms (45 value forms and 13 forms whose operation faults after its operands were evaluated: index / indexed store on a non-array or with a bad index, operators with an unsupported operand on either side, zero divisor, property of a non-object, built-in with a bad later argument, a fault inside an array literal) (every binary/comparison/logical operator in both spellings, unary, grouping, index, call with 0/2/3 arguments whose callee is itself a probe, property read, assignment as expression, indexed store, property store, concatenations, array/object literals, built-in calls) with a tagged probe call `p(tag, value)` at every leaf: every form at depth 1 (6 value draws), every form x every compatible sub-form at depth 2, seeded random nests at depth 3; truthiness table: 29 falsy/truthy values of every kind (strings and numbers from several producers) x 11 contexts (if, !, !!, ||, &&, word spellings, while, for, mixed); hand-written order cases. The printed probe-tag sequence and result are compared with refborno (exactly-once, left-to-right, short-circuit, deciding operand returned). Non-trivial = distinct decided program.",
+		Rule: "expressions: 63 forms (50 value forms, incl. calls of functions that do nothing, return at once or ignore some parameters, and 13 forms whose operation faults after its operands were evaluated: index / indexed store on a non-array or with a bad index, operators with an unsupported operand on either side, zero divisor, property of a non-object, built-in with a bad later argument, a fault inside an array literal) (every binary/comparison/logical operator in both spellings, unary, grouping, index, call with 0/2/3 arguments whose callee is itself a probe, property read, assignment as expression, indexed store, property store, concatenations, array/object literals, built-in calls) with a tagged probe call `p(tag, value)` at every leaf: every form at depth 1 (6 value draws), every form x every compatible sub-form at depth 2, seeded random nests at depth 3; truthiness table: 29 falsy/truthy values of every kind (strings and numbers from several producers) x 11 contexts (if, !, !!, ||, &&, word spellings, while, for, mixed); hand-written order cases. The printed probe-tag sequence and result are compared with refborno (exactly-once, left-to-right, short-circuit, deciding operand returned). Non-trivial = distinct decided program.",
 		Assumptions: []string{"operand values are type-correct for their operator so that no fault interferes with the order being observed (faults may still arise, e.g. zero divisors, and are then compared too)"},
 		Run:         c14Run,
 		Judge:       c14Judge,
